@@ -6,7 +6,7 @@
    (cccd_position, sorted_infos = characteristics_sorted_by_priority), AttSrvCbModel.v (callback count). *)
 From BT Require Import Base.ListX Base.Bits2 AttDb.AttDbModel AttDb.AttDbNotifProofs NQueue.NQueueModel AttSrv.AttSrvModel
   AttSrv.AttSrvFrame AttSrv.AttSrvCbModel AttSrv.AttSrvNotifSpec AttSrv.AttSrvSpecC09 AttSrv.AttSrvProofsC09
-  AttSrv.AttSrvNotifExamples.
+  AttSrv.AttSrvNotifExamples AttDb.AttDbProofs AttSrv.AttSrvProofsC09T AttSrv.AttSrvProofsC09T2.
 Local Open Scope N_scope.
 
 (* ---- lens laws of the packed store, for ANY number n of CCCDs (in particular across the 4-per-byte
@@ -103,9 +103,26 @@ Theorem C09_callback_iff_stored_value_changes :
 Proof. exact callback_iff_changed. Qed.
 Print Assumptions C09_callback_iff_stored_value_changes.
 
-(* ---- the trace level statement: the monitor accepts every trace of the model. NOT PROVED (it needs a
-   simulation between the observer of AttSrvNotifSpec.v and srv_state through all 14 handlers); the theorems
-   above are its ingredients, the monitor itself is applied to the implementation's traces on every run. *)
+(* ---- the trace level statement, PARTIAL: for every well formed configuration without include_service<> (C04's
+   inverse laws), without write queue (so no prepared CCCD writes) and without encryption requirement on a
+   characteristic with CCCD (env09, executable), and every history of any length of ANY operations (l2cap_input with
+   PDUs of bytes, l2cap_output, notify / indicate, link security changes, disconnects, val / setval, callback
+   queries, on any of the connections) whose model trace contains no FAULT: the
+   executable monitor accepts the model's trace - all clauses: readback, other_cccd_changed,
+   other_connection_changed, cccd_write, callback_iff_changed. By simulation (sim09): the observer's table is the
+   configuration's, its callback expectation is the model's count, and every CCCD value the observer tracks
+   is the stored value at the position of the CCCD attribute found under that handle. Ingredients: the
+   observer's table <-> attribute_at (by_cccd_handle_attr, resolve_obs / resolve_model), uniqueness of the CCCD
+   attribute index per CCCD number (AttDbCccdIndex.cccd_index_unique), C04_inverse, the lens laws, the
+   permutation lemma. *)
+Theorem C09_monitor_accepts_model_partial :
+  forall c ops, wf c -> no_includes c -> env09 c = true -> forallb op09_bytes ops = true ->
+    no_fault9 (srv9_run c (srv9_init c) ops) -> monitor09 c (srv9_run c (srv9_init c) ops) = None.
+Proof. exact monitor09_accepts_model_all. Qed.
+Print Assumptions C09_monitor_accepts_model_partial.
+
+(* MISSING w.r.t. the full statement: configurations with include_service<>, with a write queue (prepared CCCD
+   writes) or with encryption requirements on characteristics with CCCD. *)
 Definition C09_monitor_accepts_model_full : Prop :=
   forall c ops, wf c -> monitor09 c (srv9_run c (srv9_init c) ops) = None.
 
@@ -129,6 +146,18 @@ Example C09_monitor_accepts_model_history :
      Op9 (OpIn 0 [18; 4; 0; 1] 23); Cbs; Op9 (OpIn 0 [82; 4; 0; 0; 0] 23); Cbs; Op9 (OpIn 0 [10; 4; 0] 23);
      Op9 (OpIn 0 [12; 19; 0; 1; 0] 23); Op9 (OpDisc 0); Op9 (OpIn 0 [10; 19; 0] 23)]) = None.
 Proof. vm_compute. reflexivity. Qed.
+
+(* the hypotheses of the partial trace theorem are satisfiable: nine CCCDs with priorities, a history on three connections *)
+Example C09_partial_hypotheses_nonvacuous :
+  let ops := [Op9 (OpIn 0 [18; 4; 0; 1; 0] 23); Op9 (OpIn 1 [18; 26; 0; 3; 0] 23); Cbs; Op9 (OpIn 0 [10; 4; 0] 23);
+              Op9 (OpIn 1 [12; 26; 0; 1; 0] 23); Op9 (OpIn 2 [82; 4; 0; 2] 23); Op9 (OpIn 2 [18; 4; 0; 1; 2; 3] 23); Cbs;
+              Op9 (OpDisc 0); Op9 (OpIn 0 [10; 4; 0] 23); Op9 (OpSec 1 true 1); Op9 (OpNotify false KNotif 0); Op9 (OpOut 0 23)] in
+  env09 cfg_p9_mtu65 = true /\ no_includes_b (services cfg_p9_mtu65) = true /\ forallb op09_bytes ops = true
+  /\ map snd (srv9_run cfg_p9_mtu65 (srv9_init cfg_p9_mtu65) ops)
+     = [Out9 (OBytes [19]); Out9 (OBytes [19]); Count 2; Out9 (OBytes [11; 1; 0]); Out9 (OBytes [13; 0]); Out9 (OBytes []);
+        Out9 (OBytes [1; 18; 4; 0; 13]); Count 1; Out9 ONone; Out9 (OBytes [11; 0; 0]); Out9 ONone; Out9 (OBits [true; true; true]);
+        Out9 (OBytes [])].
+Proof. repeat split; vm_compute; reflexivity. Qed.
 
 (* the monitor is not trivially accepting (CCCD of cfg_n1_mtu23: handle 6) *)
 Example C09_monitor_rejects_wrong_readback :
